@@ -120,11 +120,9 @@ func encodeHex(ctx context.Context, obj object.Object) object.Object {
 }
 
 func encodeJSON(ctx context.Context, obj object.Object) object.Object {
-	nativeObject := obj.Interface()
-	if nativeObject == nil {
-		return object.Errorf("value error: encode() does not support %T", obj)
-	}
-	jsonBytes, err := json.Marshal(nativeObject)
+	// Marshal the object itself (its MarshalJSON method), like json.marshal
+	// does, so that the codec and the json module agree on every value
+	jsonBytes, err := json.Marshal(obj)
 	if err != nil {
 		return object.NewError(err)
 	}
